@@ -55,7 +55,7 @@ func c01sReader(b []byte) io.Reader {
 	return &c01Chunked{data: b}
 }
 
-//verif:h prop=C01 p.maxlen=3/5 cover=num,bytes,sized,object,collection runs=3000000 timeout=250/900
+//verif:h prop=C01 p.maxlen=3/5 cover=num,bytes,sized,object,collection runs=3000000 timeout=900/900
 func H_C01_stream() {
 	w := NewByteBuffer()
 	switch verifrt.Choose("kind", 5) {
@@ -131,7 +131,7 @@ func H_C01_stream() {
 	}
 }
 
-//verif:h prop=C02 p.maxlen=4/7 cover=ok,error maxvals=600 runs=3000000 timeout=250/900
+//verif:h prop=C02 p.maxlen=4/7 cover=ok,error maxvals=600 runs=3000000 timeout=900/900
 func H_C02_stream() {
 	src := verifrt.Bytes("src", verifrt.Param("maxlen", 5))
 	verifrt.AllocBudget(2*len(src) + 1024) // io.ReadAll starts with a 512-byte buffer
